@@ -87,6 +87,29 @@ def gen_dec_lex(rng):
     return mutate(rng, s) if rng.random() < 0.3 else s
 
 
+def gen_dec_padded(rng):
+    """a value with at most 18 significant digits written with redundant zeros (leading zeros, trailing fraction zeros,
+    integer parts that end in zeros): the lexical form is longer than the value's canonical form"""
+    n = rng.choice([1, 2, 5, 9, 12, 16, 17, 18, 18, 18])
+    sig = rdigits(rng, n, lead_nonzero=True)
+    if rng.random() < 0.6:
+        k = rng.randint(1, min(6, n))
+        sig = (sig[:n - k].rstrip('0') or '1') + '0' * k if n - k > 0 else sig
+    sig = sig[:18]
+    point = rng.choice([len(sig), len(sig), len(sig), len(sig) - 1, rng.randint(0, len(sig)), 0])
+    ip, fp = sig[:point], sig[point:]
+    if not ip and rng.random() < 0.5:
+        fp = '0' * rng.randint(0, 18 - len(fp.rstrip('0') or '0')) + fp
+    fp = fp.rstrip('0')
+    if len(fp) > 18:
+        fp = fp[:18].rstrip('0')
+    s = rng.choice(['', '', '-', '+']) + rng.choice(['', '', '0', '000']) + ip
+    s += '.' + fp + rng.choice(['0', '00', '000000', '0' * 19, '']) if (fp or rng.random() < 0.8) else ''
+    if s.lstrip('+-') in ('', '.'):
+        s += '0'
+    return s
+
+
 def gen_dec_val(rng):
     neg = rng.random() < 0.4
     n = rng.choice([1, 1, 2, 3, 5, 8, 12, 16, 17, 18, 18, 18, 19, 20, 24, 30])
@@ -269,7 +292,8 @@ def run(ctx):
     dec_vals = [gen_dec_val(rng) for _ in range(ctx.n(3000, 36000))]
     dec_vals += [[False, '1', -7], [False, '1', -18], [False, '123456789012345678', -18], [False, '123456789012345678', 3],
                  [True, '0', -1], [False, '0', -15], [False, '123', -3], [False, '0', 3], [True, '1', -7], [False, '1', 18]]
-    dec_lex = [gen_dec_lex(rng) for _ in range(ctx.n(2500, 24000))] + ['NaN', 'Infinity', '-Infinity', 'sNaN', '1E5', '1e-3', '1_0', '٣', '.', '', '5.', '.5', '-0', '+.0']
+    dec_lex = [gen_dec_lex(rng) for _ in range(ctx.n(2500, 24000))] + [gen_dec_padded(rng) for _ in range(ctx.n(1200, 12000))] + [
+        '987654321012345670.0', '100000000000000000.000', '-120000000000000000.0', '0010.0', '10.', '1230.00', '0.000000000000000001000'] + ['NaN', 'Infinity', '-Infinity', 'sNaN', '1E5', '1e-3', '1_0', '٣', '.', '', '5.', '.5', '-0', '+.0']
     int_vals = [rng.choice([1, -1]) * rng.randrange(1 << rng.randint(1, 80)) for _ in range(ctx.n(600, 8000))] + [0, 1 << 32, 1 << 64, -(1 << 63)]
     int_lex = [gen_int_lex(rng) for _ in range(ctx.n(1500, 12000))] + ['1_000', '٣', ' 1 ', '\x0b1', '1\x1f', ' 1', '+5', '-0', '', '+', '0x10', '1e3', '1.0']
     bool_lex = ['true', 'false', '1', '0', 'foo', '', 'True', 'FALSE', ' true', 'true ', '2', '00', '01', 'yes', 'tru', 'truee', '\n1']
@@ -478,11 +502,30 @@ def run(ctx):
               exponent_in_pm18=sum(1 for v in dec_vals if -18 <= v[2] <= 18))
     ctx.sample({'stream': 'dec-vals', 'decimal (neg, digits, exp)': dec_vals[0], 'impl [to_xml, to_py(to_xml)]': impl['dec_vals'][0]})
 
-    cases, ncanon = [], 0
+    cases, ncanon, nvalue = [], 0, 0
     for s, (r, back) in zip(dec_lex, impl['dec_lex']):
         lex_oracle('decimal', s, r, XSD_DEC, dec_fr)
         if not is_err(r):
             core = s.strip(' \t\r\n')
+            if XSD_DEC.match(s):
+                # XML -> Python -> XML keeps the numeric value of every decimal whose VALUE has at most 18 digits
+                # (leading zeros and trailing fraction zeros of the lexical form do not count)
+                ip_, _, fp_ = core.lstrip('+-').partition('.')
+                ip_, fp_ = ip_.lstrip('0'), fp_.rstrip('0')
+                sig = len(ip_) + len(fp_) if ip_ else len(fp_.lstrip('0'))
+                if sig <= 18 and len(fp_) <= 18:
+                    nvalue += 1
+                    why = None
+                    if not isinstance(back, str) or is_err(back):
+                        why = f'to_xml fails: {back}'
+                    elif 'e' in back.lower() or not XSD_DEC.match(back):
+                        why = f'written back as {back!r}, which is not a plain xsd:decimal'
+                    elif Fraction(back) != Fraction(core):
+                        why = f'written back as {back!r}: the numeric value changed'
+                    if why:
+                        ctx.fail(f'xsd:decimal {core!r} ({sig} significant digits): {why}', {'stream': 'decimal', 'clause': 'xml_py_xml_value'},
+                                 {'stream': 'dec-lex', 'case': {'xml': s}, 'impl_trace': [r, back],
+                                  'oracle': {'verdict': 'fail', 'clause': 'value(to_xml(to_py(s))) == value(s) for values of up to 18 digits'}})
             canon = re.fullmatch(r'-?(0|[1-9][0-9]*)(\.[0-9]*[1-9])?', core) and len(re.sub(r'[-.]', '', core).lstrip('0')) <= 18 \
                 and len(core.replace('-', '').replace('.', '')) <= 18
             if canon and XSD_DEC.match(s):
@@ -493,7 +536,8 @@ def run(ctx):
         cases.append((slit(s), 'None' if is_err(r) else f'(Some {coqlit((r[0], r[1], r[2]))})'))
     corr('dec-lex', 'option_eqb dec_out_eqb', 'fun s => option_map dec_out (dec_to_py s)', cases,
          lambda i: {'xml': dec_lex[i], 'impl': impl['dec_lex'][i]})
-    ctx.count('dec-lex', len(dec_lex), dec_lex, rejected=sum(1 for r, _ in impl['dec_lex'] if is_err(r)), canonical_roundtrips=ncanon)
+    ctx.count('dec-lex', len(dec_lex), dec_lex, rejected=sum(1 for r, _ in impl['dec_lex'] if is_err(r)), canonical_roundtrips=ncanon,
+              value_roundtrips_up_to_18_digits=nvalue)
 
     # ------------------------------------------------------------------ booleans (known finding: never rejects)
     cases = []
